@@ -27,34 +27,67 @@ def strip_deref_call(t):
 
 
 # ---- R-1 ------------------------------------------------------------------------------------------------
+STR_OWNERS = ("alloc::borrow::ToOwned::to_owned", "alloc::string::ToString::to_string", "core::convert::From::from",
+              "core::convert::Into::into", "alloc::str::<impl str>::to_string", "alloc::string::String::from")
+
+
+def context_map(prog, sfn):
+    """({variant: context string}, index of the context parameter, problem) as the structure function computes it for
+    element 0 of its array: Text(<a string constant selected by the variant of one parameter>.to_owned()).  Works on the
+    all-inlined body, so it does not matter whether the strings live in a `text()` method, a match in place or a table."""
+    f = prog.view("all").fn(sfn)
+    pv = Prov(f)
+    r, why = codec.array_passed_to_writer(f, pv)
+    if r is None:
+        return None, None, why
+    els = r[1]
+    if not els:
+        return None, None, "empty array"
+    e = els[0]
+    d = codec.find_def_stmt(pv, e["op"], e["at"][0], e["at"][1])
+    if not d or d[0] != "stmt" or d[1]["k"] != "aggr" or d[1].get("variant") != "Text" or not d[1]["ops"]:
+        return None, None, "element 0 is not a Value::Text"
+    d2 = codec.find_def_stmt(pv, d[1]["ops"][0], d[2], d[3])
+    if not d2 or d2[0] != "call" or callee_path(d2[1]) not in STR_OWNERS or not d2[1]["args"]:
+        return None, None, "the text of element 0 is not an owned copy of a string"
+    got = {}
+    subj = None
+    for term, dbb in codec.arms(pv, d2[1]["args"][0], d2[2], "term"):
+        term = strip_ref(term)
+        pvs = path_variants(prog, pv, conditions(f, pv, dbb))
+        sel = [(k, v) for k, v in pvs.items() if strip_deref(k)[0] == "param" and len(v) == 1]
+        if term[0] != "const" or not isinstance(term[1], str) or len(sel) != 1:
+            got["?%d" % dbb] = show(term)[:60]
+            continue
+        subj = strip_deref(sel[0][0])
+        got[next(iter(sel[0][1]))] = term[1]
+    return got, (subj[1] if subj else None), None
+
+
 def check_context_strings(ctx, rule, sfn):
     prog = ctx.prog
     spec = STRUCTURES[sfn]
     want = CONTEXTS[spec["ctx_enum"]]
-    f = prog.fn(spec["text"])
-    pv = Prov(f)
-    got = {}
-    for o in outcomes(f, pv):
-        pvs = path_variants(prog, pv, o["conds"])
-        names = pvs.get(("deref", ("param", 0))) or pvs.get(("param", 0))
-        t = o["term"]
-        if names and len(names) == 1 and t[0] == "const":
-            got[next(iter(names))] = t[1]
-        else:
-            got["?%d" % o["bb"]] = show(t)
+    got, pi, problem = context_map(prog, sfn)
+    f = prog.fn(sfn)
+    if got is None:
+        ctx.cannot(rule, "context-strings:%s" % spec["ctx_enum"], "%s: %s" % (sfn, problem), where=f.span)
+        return
     variants = [v["name"] for v in prog.adts[spec["ctx_enum"]]["variants"]]
-    ctx.ob(rule, "context-strings:%s" % spec["ctx_enum"], got == want and sorted(variants) == sorted(want),
-           "%s::text maps each variant to its RFC 8152 context string %s (found %s)" % (spec["ctx_enum"], want, got),
-           where=f.span, detail={"found": got, "rfc": want, "variants": variants}, sample={"enum": spec["ctx_enum"], "strings": got})
+    ctx.ob(rule, "context-strings:%s" % spec["ctx_enum"], got == want and sorted(variants) == sorted(want) and pi == 0,
+           "%s puts the RFC 8152 context string of its context argument first: %s (found %s)" % (sfn, want, got),
+           where=f.span, detail={"found": got, "rfc": want, "variants": variants, "context_parameter": pi},
+           sample={"enum": spec["ctx_enum"], "strings": got})
     vals = list(got.values())
     ctx.ob(rule, "context-strings-distinct:%s" % spec["ctx_enum"], len(set(vals)) == len(vals), "context strings are pairwise distinct")
 
 
 # ---- R-2 ------------------------------------------------------------------------------------------------
 def check_assembly(ctx, rule, sfn):
-    prog = ctx.prog
+    prog = ctx.prog.view("all")
     spec = STRUCTURES[sfn]
     f = prog.fn(sfn)
+    cmap, cpi, _ = context_map(ctx.prog, sfn)
     pv = Prov(f)
     r, why = codec.array_passed_to_writer(f, pv)
     if r is None:
@@ -70,8 +103,8 @@ def check_assembly(ctx, rule, sfn):
         P = ("param", pi)
         guard_ok = e["conds"] == [] or all(_is_try_edge(c) for c in e["conds"])
         if role == "context":
-            ok = (t[0] == "aggr" and t[1] == "ciborium::value::Value" and t[2] == "Text" and is_call(t[3][0][1], "alloc::borrow::ToOwned::to_owned")
-                  and is_call(t[3][0][1][2][0], spec["text"]) and strip_ref(t[3][0][1][2][0][2][0]) == P) and guard_ok
+            # Text(<context string of parameter pi>): the string itself is R-1's business (context_map)
+            ok = (t[0] == "aggr" and t[1] == "ciborium::value::Value" and t[2] == "Text" and cmap is not None and cpi == pi) and guard_ok
         elif role == "protected":
             ok = _is_expect_cbor_bstr(t, P) and guard_ok
         elif role == "optional-protected":
@@ -218,12 +251,15 @@ def check_routing(ctx, rule, sfn):
 
 
 # ---- R-4 closure arguments / C06 -----------------------------------------------------------------------------
+FN_CALLS = (CALL_ONCE, "core::ops::function::FnMut::call_mut", "core::ops::function::Fn::call")
+
+
 def closure_call(f, pv):
-    """the single call of the caller-supplied closure in f: (bb, closure term, tuple of argument terms)"""
+    """calls of function VALUES in f: (bb, callee value term, tuple of argument terms)"""
     hits = []
     for bb, t in f.calls():
-        if callee_path(t) == CALL_ONCE:
-            fn_t = pv.operand_term(t["args"][0], bb, "term")
+        if callee_path(t) in FN_CALLS:
+            fn_t = strip_ref(pv.operand_term(t["args"][0], bb, "term"))
             tup = pv.operand_term(t["args"][1], bb, "term")
             hits.append((bb, fn_t, tup))
     return hits
@@ -234,43 +270,44 @@ def structure_arg(t):
     return strip_deref_call(strip_ref(t))
 
 
+OPTION_VIEWS = ("core::option::Option::<T>::as_ref", "core::option::Option::<T>::as_deref")
+
+
+def is_self_option_unwrapped(t, field):
+    """self.<field>.as_ref().unwrap() in any of its equivalent spellings"""
+    t = strip_deref_call(strip_ref(t))
+    if not (is_call(t) and t[1] in ("core::option::Option::<T>::unwrap", "core::option::Option::<T>::expect")):
+        return False
+    v = t[2][0]
+    return is_call(v) and v[1] in OPTION_VIEWS and strip_ref(v[2][0]) == ("field", ("deref", ("param", 0)), field)
+
+
 def check_helper(ctx, rule, key, h, rules=None):
-    """closure argument order and structure source for one public helper"""
-    prog = ctx.prog
+    """closure argument order and structure source for one public helper (all-inlined view of the helper)"""
+    prog = ctx.prog.view("all")
+    if key not in prog.fns:
+        ctx.ob(rule, "helper:%s" % key, False, "%s exists" % key, kind="missing-anchor")
+        return None
     f = prog.fn(key)
     pv = Prov(f)
-    hits = closure_call(f, pv)
+    hits = [x for x in closure_call(f, pv) if x[1] == ("param", h["closure"])]
+    others = [x for x in closure_call(f, pv) if x[1] != ("param", h["closure"])]
     problems = []
     if len(hits) != 1:
-        ctx.ob(rule, "helper:%s" % key, False, "%s calls the caller's function exactly once (found %d calls)" % (key, len(hits)), where=f.span)
+        ctx.ob(rule, "helper:%s" % key, False, "%s calls the caller's function exactly once (found %d calls)" % (key, len(hits)), where=f.span,
+               detail={"other_function_values_called": [show(x[1])[:80] for x in others]})
         return None
     bb, fn_t, tup = hits[0]
-    if fn_t != ("param", h["closure"]):
-        problems.append("the called function is %s, not the closure parameter %d" % (show(fn_t)[:60], h["closure"]))
     args = list(tup[1]) if tup[0] == "tuple" else []
     kind = h["kind"]
-    form = "ref" if kind in ("verify", "decrypt") else "builder"
     struct_t = structure_arg(args[-1]) if args else None
-    # the structure argument: bytes produced (through crate-local wrappers) by the structure function with the abstract
-    # arguments the table prescribes for this helper
+    # the structure argument: the bytes returned by the structure function, called (in this body, after inlining) with
+    # the abstract arguments the tables prescribe for this helper
     a = abstract_structure(prog, key)
-    if not (struct_t is not None and is_call(struct_t) and struct_t[1] in prog.fns) or a is None:
-        problems.append("last closure argument is %s, expected the bytes of a structure function" % (show(struct_t)[:80] if struct_t else None))
+    if a is None or not (struct_t is not None and is_call(struct_t) and struct_t[1] == a[0][0]):
+        problems.append("last closure argument is %s, expected the bytes of the structure function" % (show(struct_t)[:80] if struct_t else None))
     else:
-        via = h["via"]
-        if key in ROUTING:
-            want = expected_structure(ROUTING[key])
-        else:
-            actual = [("SELF",)]
-            for w in h.get("fwd", []):
-                if w == "sig":
-                    actual.append(("call", "core::ops::index::Index::index", (("field", ("SELF",), "signatures"), ("P", 1))))
-                elif w == "sig1":
-                    actual.append(("P", 1))
-                else:
-                    actual.append(("P", w))
-            want = tuple(_subst(x, actual) if not isinstance(x, str) else x for x in expected_structure(ROUTING[via]))
-        problems.extend(compare_abstract(a[0], want))
+        problems.extend(entry_problems(prog, key, a))
     if kind == "verify":
         stored = strip_deref_call(args[0]) if len(args) == 2 else None
         if h["stored"].startswith("signatures["):
@@ -279,14 +316,12 @@ def check_helper(ctx, rule, key, h, rules=None):
                   and strip_ref(strip_deref(stored[1])[2][0]) == ("field", ("deref", ("param", 0)), "signatures")
                   and strip_deref(stored[1])[2][1] == ("param", 1))
         else:
-            ok = stored == ("field", ("deref", ("param", 0)), h["stored"])
+            ok = stored is not None and strip_ref(stored) == ("field", ("deref", ("param", 0)), h["stored"])
         if not ok or len(args) != 2:
             problems.append("closure is called with (%s), expected (stored %s, structure) in that order" % (
                 ", ".join(show(a)[:50] for a in args), h["stored"]))
     elif kind == "decrypt":
-        ct = strip_deref_call(args[0]) if len(args) == 2 else None
-        ok = (ct is not None and is_call(ct, "core::option::Option::<T>::unwrap") and is_call(ct[2][0], "core::option::Option::<T>::as_ref")
-              and strip_ref(ct[2][0][2][0]) == ("field", ("deref", ("param", 0)), "ciphertext"))
+        ok = len(args) == 2 and is_self_option_unwrapped(args[0], "ciphertext")
         if not ok:
             problems.append("cipher is called with (%s), expected (self.ciphertext.unwrap(), aad)" % ", ".join(show(a)[:50] for a in args))
     elif kind in ("create", "create-sig"):
@@ -517,52 +552,92 @@ def compare_abstract(args, want):
     return problems
 
 
+def expected_for(key):
+    """abstract structure arguments the tables prescribe for a function, over ITS OWN parameters: a ROUTING row, or
+    for a public helper the row of the (logical) producer it is documented to use, composed with the forwarding map"""
+    if key in ROUTING:
+        return expected_structure(ROUTING[key])
+    h = HELPERS.get(key)
+    if h is None or h["via"] not in ROUTING:
+        return None
+    actual = [("SELF",)]
+    for w in h.get("fwd", []):
+        if w == "sig":
+            actual.append(("call", "core::ops::index::Index::index", (("field", ("SELF",), "signatures"), ("P", 1))))
+        elif w == "sig1":
+            actual.append(("P", 1))
+        else:
+            actual.append(("P", w))
+    return tuple(_subst(x, actual) if not isinstance(x, str) else x for x in expected_structure(ROUTING[h["via"]]))
+
+
+def row_for(key):
+    if key in ROUTING:
+        return ROUTING[key]
+    h = HELPERS.get(key)
+    return ROUTING.get(h["via"]) if h else None
+
+
+def entry_problems(prog, key, a):
+    """compare the abstract structure `a` reached from `key` (all-inlined view) with the tables"""
+    r = row_for(key)
+    want = expected_for(key)
+    args, conds, chain = a
+    problems = []
+    if args[0] != r["fn"]:
+        problems.append("reaches %s instead of %s" % (args[0], r["fn"]))
+    problems.extend(compare_abstract(args, want))
+    if isinstance(r["context"], tuple):
+        P = want[1]
+        allowed = None
+        for c in conds:
+            if c[0] == ("discr", P) and c[1] == "variants":
+                allowed = set(c[2]) if allowed is None else allowed & set(c[2])
+        if allowed != RECIPIENT_CONTEXTS:
+            problems.append("reached for contexts %s, must be exactly the three recipient contexts" % (sorted(allowed) if allowed else "any"))
+    if isinstance(r["payload"], tuple):
+        guarded = any(c[0] == ("call", "core::option::Option::<T>::is_none", (("field", ("SELF",), "payload"),)) and
+                      ((c[1] == "ne" and c[2] == (0,)) or (c[1] == "eq" and c[2] == 1)) for c in conds) or \
+            any(c[0] == ("call", "core::option::Option::<T>::is_some", (("field", ("SELF",), "payload"),)) and
+                ((c[1] == "eq" and c[2] == 0) or (c[1] == "ne" and c[2] == (1,))) for c in conds)
+        if not guarded:
+            problems.append("the detached payload is used without the `self.payload.is_none()` check on the path")
+    return problems
+
+
 def check_routing_inlined(ctx, rule, sfn):
-    """R-3: every ROUTING entry point reaches the structure function with exactly the prescribed abstract arguments
-    (crate-local wrappers are inlined), under the prescribed guards; and every direct call site of the structure
-    function lies on the inlining chain of some entry point (who-may-call)."""
-    prog = ctx.prog
-    covered = set()
+    """R-3: every entry point of the tables reaches the structure function with exactly the prescribed abstract arguments,
+    under the prescribed guards.  Entry points are analysed in the all-inlined view (every crate-local function they
+    call is expanded in place), so it does not matter how the work is split between public methods and private
+    helpers.  ROUTING rows that name a private function are logical rows (the producer a public helper is documented
+    to use); they are checked when such a function exists and skipped otherwise."""
+    prog = ctx.prog.view("all")
+    n = 0
     for key, r in sorted(ROUTING.items()):
         if r["fn"] != sfn:
             continue
+        if key not in prog.fns:
+            if not r.get("private"):
+                ctx.ob(rule, "routing:%s" % key, False, "%s exists" % key, kind="missing-anchor")
+            continue
         a = abstract_structure(prog, key)
         if a is None:
-            ctx.ob(rule, "routing:%s" % key, False, "%s produces its bytes through exactly one call chain ending in %s" % (key, sfn),
-                   where=prog.fns[key].span if key in prog.fns else None, kind="cannot-decide" if key in prog.fns else "missing-anchor")
+            ctx.cannot(rule, "routing:%s" % key, "%s produces its bytes through exactly one call of %s" % (key, sfn), where=prog.fns[key].span)
             continue
-        args, conds, chain = a
-        covered |= set(chain)
-        want = expected_structure(r)
-        problems = []
-        if args[0] != sfn:
-            problems.append("reaches %s instead of %s" % (args[0], sfn))
-        problems.extend(compare_abstract(args, want))
-        if isinstance(r["context"], tuple):
-            P = ("P", r["context"][1])
-            allowed = None
-            for c in conds:
-                if c[0] == ("discr", P) and c[1] == "variants":
-                    allowed = set(c[2]) if allowed is None else allowed & set(c[2])
-            if allowed != RECIPIENT_CONTEXTS:
-                problems.append("reached for contexts %s, must be exactly the three recipient contexts" % (sorted(allowed) if allowed else "any"))
-        if isinstance(r["payload"], tuple):
-            guarded = any(c[0] == ("call", "core::option::Option::<T>::is_none", (("field", ("SELF",), "payload"),)) and
-                          ((c[1] == "ne" and c[2] == (0,)) or (c[1] == "eq" and c[2] == 1)) for c in conds)
-            if not guarded:
-                problems.append("the detached payload is used without the `self.payload.is_none()` check on the path")
+        n += 1
+        problems = entry_problems(prog, key, a)
         ctx.ob(rule, "routing:%s" % key, not problems,
-               "%s builds its structure from (context %s, self.protected, %saad=arg%d%s)%s" % (
+               "%s builds its structure from (context %s, self.protected, %saad=arg%d%s)" % (
                    key, r["context"], "" if r["sign"] is None else "sign=%s, " % (r["sign"],), r["aad"],
-                   "" if r["payload"] is None else ", payload=%s" % (r["payload"],),
-                   "" if len(chain) == 1 else " via " + " -> ".join(c.split("::")[-1] for c in chain[1:])),
-               where=prog.fns[key].span, detail={"problems": problems, "args": [show(x)[:100] for x in args], "chain": chain},
-               sample={"entry": key, "args": [show(x)[:80] for x in args[1:]], "chain": chain})
-    sites = structure_call_sites(prog, sfn)
-    stray = sorted({f.key for f, _ in sites} - covered - prog.fully_inlined)
-    ctx.ob(rule, "who-may-call:%s" % sfn, not stray,
-           "every direct call of %s lies on the call chain of a table entry point (no other function builds this structure)" % sfn,
-           detail={"uncovered_callers": stray})
+                   "" if r["payload"] is None else ", payload=%s" % (r["payload"],)),
+               where=prog.fns[key].span, detail={"problems": problems, "args": [show(x)[:100] for x in a[0]]},
+               sample={"entry": key, "args": [show(x)[:80] for x in a[0][1:]]})
+    # who else builds this structure?  public functions outside the tables are additions to the API: noted, not judged
+    known = set(ROUTING) | set(HELPERS)
+    extra = sorted({f.key for f, _ in structure_call_sites(prog, sfn) if f.is_pub and f.key not in known})
+    for k in extra:
+        ctx.note("%s also builds a %s structure; it is not in the tables and is not checked" % (k, sfn.split("::")[-1]))
+    return n
 
 
 def check_carriers(ctx, rule, types):
